@@ -53,7 +53,7 @@ EP = ScalesUriParser.Endpoint('127.0.0.1', PORT)
 def strategy(tier):
   pairs = [
       (8, st.tuples(st.just('request'), st.booleans()).map(list)),
-      (5, st.tuples(st.just('reply'), st.integers(0, 30)).map(list)),
+      (5, st.tuples(st.just('reply'), st.integers(0, 30), st.sampled_from(['ok', 'ok', 'ok', 'rerr', 'bad_rerr'])).map(list)),
       (2, st.tuples(st.just('dup'), st.integers(0, 30)).map(list)),
       (2, st.tuples(st.just('forge'), st.sampled_from([0, 1, 1, 'unknown', 'unknown_big'])).map(list)),
       (3, st.tuples(st.just('timeout'), st.integers(0, 30)).map(list)),
@@ -279,8 +279,12 @@ class Run(object):
   def live(self):
     return [r for r in self.reqs if r.conn == self.gen and r.written and not r.answered]
 
-  def send_reply(self, tag, r=None):
-    if self.proto == 'thriftmux':
+  def send_reply(self, tag, r=None, kind='ok'):
+    if self.proto == 'thriftmux' and kind in ('rerr', 'bad_rerr'):
+      # the peer answers with an error frame: the current Rerr (-128) or the legacy one (127)
+      self.flags.add('answered_with_' + kind)
+      self.sock.deliver(M.encode_frame(M.R_ERR if kind == 'rerr' else M.BAD_R_ERR, tag, b'server says no'))
+    elif self.proto == 'thriftmux':
       payload = r.frame_reply if r is not None and getattr(r, 'frame_reply', None) else self.default_reply()
       self.sock.deliver(M.encode_rdispatch(tag, M.OK, payload))
     else:
@@ -299,7 +303,7 @@ class Run(object):
     p.writeMessageEnd()
     return b.getvalue()
 
-  def reply(self, i):
+  def reply(self, i, kind='ok'):
     l = self.live()
     if not l:
       return
@@ -311,7 +315,7 @@ class Run(object):
     self.written_unanswered.pop(r.tag, None)
     if r.timed_out:
       self.flags.add('late_reply_after_timeout')
-    self.send_reply(r.tag, r)
+    self.send_reply(r.tag, r, kind)
 
   def dup(self, i):
     done = [r for r in self.reqs if r.conn == self.gen and r.answered]
@@ -405,7 +409,7 @@ def _exec_transport(plan):
     if k == 'request':
       run.request(op[1])
     elif k == 'reply':
-      run.reply(op[1])
+      run.reply(op[1], op[2] if len(op) > 2 else 'ok')
     elif k == 'dup':
       run.dup(op[1])
     elif k == 'forge':
